@@ -167,7 +167,7 @@ Definition enc_out (h : list ctx) (o : out sx) : sx :=
 
 (* the observable process state; probes = [configs; patterns; matchers] *)
 Definition enc_state (probes : sx) (st : wstate) : sx :=
-  L [of_nat (g_junkid st);
+  L [L [of_nat (g_junkid st); of_option of_nat (g_xjunkid st)];
      of_list (fun f => match g_pctx st f with
                        | None => L []
                        | Some c => match nth_error (g_heap st) c with
